@@ -60,6 +60,7 @@ def showSendObs : Obs → String
   | .select .W w => s!"select W {showTmo w}"
   | .lockTry => "lock try"
   | .lockWait w => s!"lock wait {showTmo w}"
+  | .lockRelease => "lock release"
 
 def showErr : ErrK → String
   | .reset => "err reset"
